@@ -650,7 +650,7 @@ func Document(t *rapid.T, o DocOpts) *DocCase {
 		c.Doc.Errors = append([]jsonapi.Error{}, c.Errors...)
 	}
 
-	c.PrePath = rapid.SampledFrom([]string{"", "/", "https://h", "https://h/api/", "http://x/a b", "/p\"q", "https://h/my%20api", "/100%/", "/%s/%d%v", "https://h/api//", "//"}).Draw(t, "prepath")
+	c.PrePath = rapid.SampledFrom([]string{"", "/", "https://h", "https://h/api/", "http://x/a b", "/p\"q", "https://h/my%20api", "/100%/", "/%s/%d%v", "https://h/api//", "//", "https://h/API/v2", "/Services/É"}).Draw(t, "prepath")
 	c.Doc.PrePath = c.PrePath
 
 	// Selection and relationship data per type.
